@@ -2,6 +2,7 @@
 From Coq Require Import ZArith List Bool PrimFloat String.
 Import ListNotations.
 Require Import PyBase Solver SolverFacts SolverFacts2 SolverFacts3 SolverF SolverExamples.
+Require Import SolveAll SolveAllF SolveAllFacts SolveAllExamples.
 Require Fsic.Gen.Generated.
 Open Scope Z_scope.
 
@@ -231,6 +232,33 @@ Section C06.
   Proof. exact (calls_status_invariant_alphabet num sub absf ltb isfin zero ev before after cs s). Qed.
 End C06.
 
+(* 'skip' in a multi-period solve: the period whose pass k+1 leaves a non-finite check value (after k quiet passes) is
+   stamped 'S' / k+1 with flag False, no exception, and the loop of solve() goes on with the remaining periods from that state *)
+Section C06multi.
+  Variable num : Type.
+  Variables (sub : num -> num -> num) (absf : num -> num) (ltb : num -> num -> bool)
+            (isfin : num -> bool) (zero : num).
+  Variables (ev before after : hook num).
+  Variable L : Type.
+  Notation run_periods := (run_periods num sub absf ltb isfin zero ev before after L).
+
+  Theorem C06_skip_moves_on d o t (lab : L) rest s acc p v1 k :
+    min_iter o <= max_iter o ->
+    py_pos (List.length (status s)) t = Some p -> feasible d (List.length (status s)) p = true -> offset o = 0 ->
+    errors o = ESkip ->
+    before t (errors o) (catch_first o) 0%nat (vals_of s) = (v1, None) ->
+    (S k <= Z.to_nat (max_iter o))%nat ->
+    quiet num sub absf ltb isfin zero ev d o t p (get_check num zero d (vals_of s) p) v1 k ->
+    snd (evk num ev o t (S k) (st_after num ev o t v1 k)) = None ->
+    all_finite num isfin (chkseq num zero ev d o t p (get_check num zero d (vals_of s) p) v1 (S k)) = false ->
+    run_periods d o ((t, lab) :: rest) s acc =
+    run_periods d o rest
+      (mkState (st_after num ev o t v1 (S k)) (upd p Skipped (status s)) (upd p (Z.of_nat (S k)) (iters s))
+               (log s ++ [EvBefore t] ++ pass_events t 1 (S k)))
+      (acc ++ [(lab, t, false)]).
+  Proof. exact (skip_moves_on num sub absf ltb isfin zero ev before after L d o t lab rest s acc p v1 k). Qed.
+End C06multi.
+
 (* the five statuses of the model are the SolutionStatus values of the working tree (regenerated constant) *)
 Theorem C06_status_alphabet_matches_source :
   map st_char [Unsolved; Solved; Failed; ErrorSt; Skipped] = Generated.status_values.
@@ -286,10 +314,12 @@ Print Assumptions C06_after_exception_surfaces.
 Print Assumptions C06_solve_t_status_shape.
 Print Assumptions C06_calls_status_invariant.
 Print Assumptions C06_catch_first_no_store.
+Print Assumptions C06_skip_moves_on.
 Print Assumptions C06_status_alphabet_matches_source.
 Print Assumptions C06_status_always_in_alphabet.
 Print Assumptions C06_catch_first_warning_no_store.
 Print Assumptions C06_replace_judged_after_nonfinite_refuted.
 Print Assumptions ex6_quiet_satisfiable.
 Print Assumptions ex7_catch_first.
+Print Assumptions exB_skip_moves_on.
 Print Assumptions ex8_never_judged_hypotheses_satisfiable.
